@@ -484,7 +484,8 @@ fn gen_occs(a: &ArgDesc, t: &mut Tape<'_>) -> Vec<Obs> {
     let n = t.range(0, 3);
     (0..n)
         .map(|_| {
-            let k = occ_len(a, t);
+            // (an occurrence may be empty where num_args starts at 0)
+            let k = if matches!(a.num_args, Some((0, _))) && t.chance(1, 3) { 0 } else { occ_len(a, t) };
             Obs::List((0..k).map(|_| gen_scalar(a, t)).collect())
         })
         .collect()
